@@ -39,6 +39,16 @@ def shim_programs():
         out.append(('shim:stream%d' % s, head + setw(72, s) + [A.imm('LDAC', 1), A.opr('SVC')] + setw(73, 0) + [A.imm('LDAC', 1), A.opr('SVC')] + exitv(2)))
     for v in (0, 1, 255, 256, -1, 65535):
         out.append(('shim:exit%d' % v, head + exitv(v)))
+    # self-modifying code: word 4 = [STAM 4, LDAC 0, LDAC 0, LDAC 0] is overwritten by LDAC-1 bytes while it executes
+    out.append(('shim:selfmod', [A.ref('BR', 'go'), A.lab('sp'), A.data(150000), A.lab('go'), A.imm('LDAC', 0x31313131), A.imm('STAM', 4), A.imm('LDAC', 0), A.imm('LDAC', 0), A.imm('LDAC', 0),
+                                 A.ref('LDBM', 'sp'), A.imm('STAI', 2), A.imm('LDAC', 0), A.opr('SVC')]))
+    # an image larger than 200000 bytes whose last words are used
+    big = [A.ref('BR', 'go'), A.lab('sp'), A.data(190000), A.lab('tab')] + [A.data(0)] * 52000 + [A.lab('last'), A.data(77), A.lab('go'),
+           A.ref('LDAM', 'last'), A.ref('LDBM', 'sp'), A.imm('STAI', 2), A.imm('LDAC', 0), A.imm('STAI', 3), A.imm('LDAC', 1), A.opr('SVC')] + exitv(5)
+    out.append(('shim:bigimage', big))
+    # read from a file stream whose file does not exist (end of file at once): 255
+    out.append(('shim:fileeof', head + [A.imm('LDAC', 256), A.ref('LDBM', 'sp'), A.imm('STAI', 2), A.imm('LDAC', 2), A.opr('SVC'), A.ref('LDAM', 'sp'), A.imm('LDAI', 1),
+                                        A.ref('LDBM', 'sp'), A.imm('STAI', 2), A.imm('LDAC', 0), A.opr('SVC')]))
     return [(i, p, asmlib.src_of(p)) for i, p in out]
 
 
